@@ -85,7 +85,10 @@ func broken(format string, a ...interface{}) {
 func Load(repo, tier string, tests bool) *Ctx {
 	mode := packages.LoadSyntax
 	cfg := &packages.Config{Mode: mode, Dir: repo, Env: goEnv(), Tests: tests}
-	pkgs, err := packages.Load(cfg, "./...")
+	// the generic algorithm packages of the library are loaded with their source, so that the
+	// instantiations the module uses (slices.Contains, slices.IndexFunc, cmp.Compare …) have bodies
+	// the path engine can evaluate like helpers of the module
+	pkgs, err := packages.Load(cfg, "./...", "slices", "maps", "cmp")
 	if err != nil {
 		broken("packages.Load: %v", err)
 	}
@@ -102,8 +105,11 @@ func Load(repo, tier string, tests bool) *Ctx {
 		if tests {
 			continue // test variants are only type-checked
 		}
-		c.Pkgs[p.PkgPath] = p
 		initial = append(initial, p)
+		if p.PkgPath == "slices" || p.PkgPath == "maps" || p.PkgPath == "cmp" {
+			continue // library source: part of the program, not of what is judged
+		}
+		c.Pkgs[p.PkgPath] = p
 		c.Fset = p.Fset
 	}
 	if tests {
@@ -122,6 +128,9 @@ func Load(repo, tier string, tests bool) *Ctx {
 	for i, p := range initial {
 		if spkgs[i] == nil {
 			broken("no SSA for %s", p.PkgPath)
+		}
+		if p.PkgPath == "slices" || p.PkgPath == "maps" || p.PkgPath == "cmp" {
+			continue
 		}
 		c.SSA[p.PkgPath] = spkgs[i]
 	}
